@@ -253,7 +253,14 @@ def mutate_(r, case, files, written, kind=None):
         t.nodes[container]['parent'] = container
         x = t.mkdir(container, 2)
         t.link(container, 'xd', x)
-        t.link(x, 'inner', t.mkfile(2, b'on other device'))
+        shape = r.choice(['file', 'file', 'empty', 'subdir', 'hidden'])
+        if shape == 'file':
+            t.link(x, 'inner', t.mkfile(2, b'on other device'))
+        elif shape == 'subdir':
+            y = t.mkdir(x, 2)
+            t.link(x, 'deeper', y)
+        elif shape == 'hidden':
+            t.link(x, '.hidden', t.mkfile(2, b'hidden file on other device'))
         t.link(di, 'xd', x)
     else:
         return 'none'
